@@ -342,8 +342,9 @@ mismatch between values and axes""".format(inferred, self.values.shape)
     def axes(self, newaxes):
         if not isinstance(newaxes, Axes):
             newaxes = Axes._init(newaxes, shape=self.shape)
-        else:
-            assert [ax.size for ax in newaxes] == list(self.shape), "shape mismatch"
+        # whatever the form of the new axes, they must fit the data
+        if [ax.size for ax in newaxes] != list(self.shape):
+            raise ValueError("shape mismatch: axes of sizes {} for data of shape {}".format([ax.size for ax in newaxes], self.shape))
         self._axes = newaxes
 
     @property
